@@ -585,7 +585,9 @@ def kstep (s : St) (op : List String) (impl : String) : St × String :=
             { s with kb := KittyTerm.update s.kb id (KittyTerm.resizeGen (s.kb id) s.encPx.size),
                      encPx := s.encPx.push (((fields mcanon)[2]?.getD "px=?").drop 3).toString }
           else s
-        let implPx := if encoded then (((fields impl)[2]?.getD "px=?").drop 3).toString else k1.implPx
+        -- (whatever the implementation says about pending data: a resize to a non-empty pixel size has new data)
+        let implPxNow := (((fields impl)[2]?.getD "px=?").drop 3).toString
+        let implPx := if impl ≠ "panic" ∧ dataCode implPxNow ≠ 0 ∧ !implPxNow.startsWith "0x" ∧ !implPxNow.endsWith "x0" then implPxNow else k1.implPx
         (s1.setImg n { k1 with iw := cw, ih := chh, need := k1.need || encoded, implPx := implPx }, s!"{mcanon}\t{impl}\t{verdict}")
     | _, _, _ => (s, bad)
   | "kdraw" :: n :: c :: r :: win =>
